@@ -181,6 +181,10 @@ struct ExchIdCase {
     /// second session on the same node
     two_sessions: bool,
     seed: u32,
+    /// the long-lived exchange has been dropped by its owner while its reliable message is still
+    /// unacknowledged: it lingers in the table (retransmitting, receiving under its id)
+    #[serde(default)]
+    lingering: bool,
 }
 
 fn exch_id_strategy() -> impl Strategy<Value = ExchIdCase> {
@@ -189,12 +193,14 @@ fn exch_id_strategy() -> impl Strategy<Value = ExchIdCase> {
         prop::collection::vec(prop::bool::weighted(0.3), 1..24),
         any::<bool>(),
         any::<u32>(),
+        prop::bool::weighted(0.4),
     )
-        .prop_map(|(back, keep, two_sessions, seed)| ExchIdCase {
+        .prop_map(|(back, keep, two_sessions, seed, lingering)| ExchIdCase {
             back,
             keep,
             two_sessions,
             seed,
+            lingering,
         })
 }
 
@@ -250,6 +256,28 @@ fn check_exch_ids(case: &ExchIdCase) -> Case {
         let Some((_, x0)) = ids0.first().copied() else {
             return Case::inconclusive("no exchange id visible");
         };
+        let mut e0 = Some(e0);
+        if case.lingering {
+            // the peer's reliable answer arrives, the owner consumes it and drops the exchange
+            // before anything went out: an acknowledgement is owed, the exchange lingers
+            let Some(bytes) = vh::sim::node::craft_secured(&p1.key_ba, p1.b_node_id, p1.a_sess_id, 0x0000_2000, x0, false, true, 0x00F7, 2, &[9, 9, 9])
+            else {
+                return Case::inconclusive("cannot craft the peer's message");
+            };
+            if let Some(mut e) = e0.take() {
+                let owner = ex.spawn("a.e0", async move {
+                    let _ = e.recv().await;
+                    core::future::pending::<()>().await;
+                });
+                net.inject(0, node_addr(1), bytes);
+                ex.run_for(5 * MS);
+                ex.kill(owner);
+            }
+            let lingering = sessions(&a).iter().any(|s| s.exchanges.iter().flatten().any(|e| e.initiator && e.exch_id == x0 && e.state == 2));
+            if !lingering {
+                return Case::inconclusive("the dropped exchange did not linger");
+            }
+        }
         a.with_state(|s| s.verif_sessions_mut().verif_set_next_exch_id(x0.wrapping_sub(case.back)));
         let mut kept: Vec<Exchange<'_>> = Vec::new();
         for (i, keep) in case.keep.iter().enumerate() {
@@ -276,7 +304,7 @@ fn check_exch_ids(case: &ExchIdCase) -> Case {
                             }
                         }
                     }
-                    if i as u16 >= case.back {
+                    if i as u16 >= case.back && (!case.lingering || ids.iter().any(|(_, x)| *x == x0)) {
                         wrapped = true;
                     }
                     if *keep && kept.len() < 3 {
@@ -292,7 +320,9 @@ fn check_exch_ids(case: &ExchIdCase) -> Case {
             if verdict.is_some() {
                 break;
             }
-            if ex.run_for(300 * MS) == Stop::PollLimit {
+            // (the transport does not get to run while a dropped exchange lingers: everything
+            // below happens before its next turn)
+            if !case.lingering && ex.run_for(300 * MS) == Stop::PollLimit {
                 return Case::inconclusive("poll watchdog");
             }
         }
@@ -300,7 +330,11 @@ fn check_exch_ids(case: &ExchIdCase) -> Case {
         drop(e0);
         ex.run_for(500 * MS);
     }
-    verdict.unwrap_or_else(|| Case::pass(wrapped).label(if wrapped { "allocator-passed-live-id" } else { "not-reached" }))
+    verdict.unwrap_or_else(|| {
+        Case::pass(wrapped)
+            .label(if wrapped { "allocator-passed-live-id" } else { "not-reached" })
+            .label(if case.lingering { "live-exchange-dropped-but-lingering" } else { "live-exchange-owned" })
+    })
 }
 
 // ------------------------------------------------------------------ session id allocator
